@@ -297,9 +297,11 @@ def durable_execution(
             initial_checkpoint_token=invocation_input.checkpoint_token,
             operations={},
             service_client=service_client,
-            # If there are operations other than the initial EXECUTION one, current state is in replay mode
+            # If there are operations other than the initial EXECUTION one, current state is in replay mode.
+            # The history may be paginated: a next marker means more operations follow on later pages.
             replay_status=ReplayStatus.REPLAY
             if len(invocation_input.initial_execution_state.operations) > 1
+            or invocation_input.initial_execution_state.next_marker
             else ReplayStatus.NEW,
         )
 
